@@ -1,4 +1,5 @@
 """C09 — the mailbox session survives connection loss: nothing lost, nothing repeated."""
+import os
 import random
 import time
 
@@ -10,15 +11,35 @@ from ..worlds.mailbox import World
 ID = "C09"
 MODEL = "CLIENT"
 PROP_MODULES = ["WV.Props.ClientSkel", "WV.Props.C09"]
+# the data half of the liveness clause (two composed C03 `Client`s + server: Drained => received == sent, and the
+# explicit draining continuation); part of the check as soon as its module is installed
+if os.path.exists(os.path.join(os.path.dirname(os.path.dirname(os.path.dirname(os.path.abspath(__file__)))),
+                               "lean", "WV", "Props", "C09_Live.lean")):
+    PROP_MODULES.append("WV.Props.C09_Live")
 NATIVE_DECIDE_MODULES = ["WV.Proofs.ClientCert", "WV.Props.C09"]
-TRUSTED = c14.TRUSTED
+TRUSTED = list(c14.TRUSTED) + [
+    "data half of the liveness clause (WV.Props.C09_Live): proved for the composition of two C03 `Client`s (Boss/Send/"
+    "Mailbox/Order/Receive data layers) with the storing/duplicating/replaying server `Sys`, under the ideal (side, "
+    "phase)-keyed AEAD hypothesis `Crypto.Ideal` and in a LEGAL ENVIRONMENT (`legalRun`: Boss.happy and "
+    "Send.got_verified_key are called by Receive only, Receive.got_key comes after Boss.got_code, Mailbox inputs are "
+    "well-typed — read off _key.py/_receive.py/_code.py; without it the statement is false in `Sys`: "
+    "`legality_is_needed`); that the real client is that `Client` is C03's correspondence plus the `drained-comp` "
+    "cases here; fairness itself (that a network performs the continuation) is not proved",
+]
 RULE = ("(a) guided schedules with frequent drops, client 0 compared step by step with the Lean model (every reconnect "
         "must carry bind + exactly the owed commands); (b) two real clients with random drop sequences on both sides "
         "(in-flight commands and answers lost), then stable connectivity: the oracle requires key, verifier, versions "
         "once each and every send_message() delivered to the peer exactly once and in order; (c) the same oracle with two "
         "clients on their real connection stack (real twisted ClientService, real autobahn handshake with the real server "
         "protocol over in-memory pipes; refused and unanswered reconnection attempts, minutes of virtual time); (d) one "
-        "long outage on the real ClientService as the client constructs it; distinct = distinct traces")
+        "long outage on the real ClientService as the client constructs it; (e) `drained`: two real clients, an arbitrary "
+        "prefix with drops (also in the middle of sends, sends while disconnected), then the continuation of "
+        "WV.Props.C09Live.e2e_always_completable on the real code — reconnect both, the server replays, flush — and the "
+        "real-code reading of `Drained`: both Mailboxes S2B, Send._queue / Order._queue / _rx_phases / _pending_outbound "
+        "empty, every numbered message the server stores is in the peer's _processed, received == sent both ways; "
+        "(f) `drained-comp`: the same continuation on ONE real client's data path (Boss/Send/Mailbox/Order/Receive with "
+        "recorder collaborators), the same op lines through WV.C03.driver (the `Client` the new theorems are about); "
+        "distinct = distinct traces")
 
 
 def cases(rng, tier):
@@ -42,7 +63,282 @@ def cases(rng, tier):
     for k in range(3 if tier == "quick" else 40):
         out.append(dict(kind="pair", seed=rng.randrange(10**9), nmsg=[rng.choice([35, 48, 70]), rng.choice([2, 40])],
                         pdrop=0.0, steps=rng.choice([1500, 2500]), late_drops=rng.choice([1, 2, 3])))
+    # the draining continuation on the real code (two clients), and on one client's data path against WV.C03.driver
+    for c in DRAINED_CORPUS:
+        out.append(dict(c))
+    for _ in range(120 if tier == "quick" else 2500):
+        out.append(dict(kind="drained", seed=rng.randrange(10**9), nmsg=[rng.randrange(0, 7), rng.randrange(0, 7)],
+                        pdrop=rng.choice([0.0, 0.05, 0.15, 0.3]), steps=rng.choice([40, 120, 300]),
+                        final_drop=rng.choice([[0, 0], [1, 0], [0, 1], [1, 1]])))
+    for _ in range(80 if tier == "quick" else 2000):
+        out.append(dict(kind="drained-comp", seed=rng.randrange(10**9), nsend=rng.randrange(0, 7), npeer=rng.randrange(0, 7),
+                        pdrop=rng.choice([0.1, 0.25, 0.5])))
+    if tier == "thorough":
+        # small-scope exhaustive: 3 messages A->B, every single drop point of A (after each of its first 40 steps)
+        for at in range(40):
+            out.append(dict(kind="drained", seed=7, nmsg=[3, 1], pdrop=0.0, steps=60, final_drop=[0, 0], drop_at=[0, at]))
+            out.append(dict(kind="drained", seed=7, nmsg=[3, 1], pdrop=0.0, steps=60, final_drop=[0, 0], drop_at=[1, at]))
     return out
+
+
+DRAINED_CORPUS = [
+    # the run of the Lean non-vacuity example: A sends 3, loses its connection in the middle of the sends, B drops too
+    dict(kind="drained", seed=11, nmsg=[3, 1], pdrop=0.15, steps=120, final_drop=[1, 1]),
+    dict(kind="drained", seed=12, nmsg=[6, 6], pdrop=0.3, steps=300, final_drop=[1, 0]),
+    dict(kind="drained", seed=13, nmsg=[0, 5], pdrop=0.0, steps=40, final_drop=[0, 1]),
+    dict(kind="drained", seed=14, nmsg=[4, 0], pdrop=0.05, steps=8, final_drop=[1, 1]),      # nearly everything sent while disconnected
+    dict(kind="drained-comp", seed=21, nsend=3, npeer=3, pdrop=0.5),
+    dict(kind="drained-comp", seed=22, nsend=6, npeer=0, pdrop=0.25),
+    dict(kind="drained-comp", seed=23, nsend=0, npeer=6, pdrop=0.1),
+]
+
+
+def _numeric(phase):
+    return phase.isascii() and phase.isdigit()
+
+
+def run_drained(case):
+    """Mirror of `drainActs` (lean/WV/Proofs/C09_Drain.lean) on the real code.  Prefix: any schedule of API calls, frame
+    deliveries and drops.  Continuation: reconnect both, let the server replay, flush.  Then the real-code reading of
+    `Drained` must hold and with it received == sent (WV.Props.C09Live.e2e_complete_clients)."""
+    from ..util import automat_state
+    rng = random.Random(case["seed"])
+    viol = []
+    with World(seed=case["seed"]) as W:
+        cl = [W.add_client(delegated=True), W.add_client(delegated=True)]
+        code = "9-drumbeat-uproot"
+        sent = [[], []]
+        started = [False, False]
+        ndrops = 0
+        midsend = 0
+        nreorder = 0
+        nsteps = [0, 0]
+        drop_at = case.get("drop_at")
+        for step in range(case["steps"]):
+            choices = []
+            for ci in (0, 1):
+                c = cl[ci]
+                if c.conn is None and c.svc.started:
+                    choices += [["open", ci]] * 3
+                if c.conn is not None:
+                    if c.conn.c2s:
+                        choices += [["c2s", ci]] * 4
+                    if c.conn.s2c:
+                        choices += [["s2c", ci]] * 4
+                    if rng.random() < case["pdrop"]:
+                        choices += [["drop", ci]] * 3
+                    nmf = len(W.msg_frames(ci))
+                    if nmf >= 2:
+                        choices += [["swapmsg", ci, rng.randrange(nmf), rng.randrange(nmf)]] * 2
+                    if nmf >= 1 and rng.random() < 0.3:
+                        choices += [["dupmsg", ci, rng.randrange(nmf)]]
+                if not started[ci]:
+                    choices += [["api", ci, "set_code", code]] * 2
+                if len(sent[ci]) < case["nmsg"][ci]:
+                    body = bytes([ci, len(sent[ci]) % 256]) * (1 + len(sent[ci]) % 7)
+                    choices += [["api", ci, "send", body.hex()]] * 2
+                if W.pending_turn(ci):
+                    choices += [["turn", ci]] * 2
+            if not choices:
+                break
+            op = rng.choice(choices)
+            W.do(op)
+            nsteps[op[1]] += 1
+            if op[0] == "drop":
+                ndrops += 1
+            if op[0] == "swapmsg":
+                nreorder += 1
+            if op[0] == "api" and op[2] == "set_code":
+                started[op[1]] = True
+            if op[0] == "api" and op[2] == "send":
+                sent[op[1]].append(op[3])
+                # a drop right behind a send: the frame is written (or queued) and lost with the connection
+                if cl[op[1]].conn is not None and rng.random() < case["pdrop"]:
+                    W.do(["drop", op[1]])
+                    ndrops += 1
+                    midsend += 1
+            if drop_at and op[1] == drop_at[0] and nsteps[op[1]] == drop_at[1] + 1 and cl[op[1]].conn is not None:
+                W.do(["drop", op[1]])
+                ndrops += 1
+        # the remaining API calls (the continuation contains no send_message): possibly while disconnected
+        for ci in (0, 1):
+            if not started[ci]:
+                W.do(["api", ci, "set_code", code])
+            while len(sent[ci]) < case["nmsg"][ci]:
+                body = bytes([ci, len(sent[ci]) % 256]) * (1 + len(sent[ci]) % 7)
+                W.do(["api", ci, "send", body.hex()])
+                sent[ci].append(body.hex())
+        for ci in (0, 1):
+            if case["final_drop"][ci] and cl[ci].conn is not None:
+                W.do(["drop", ci])
+                ndrops += 1
+        haskey = all(automat_state(c.boss._R) == "S2_verified_key" for c in cl)
+        # ---- the continuation: reconnect both, the server replays (in any order, with duplicates), flush
+        for rnd in range(3):
+            for ci in (0, 1):
+                if cl[ci].conn is None and cl[ci].svc.started:
+                    W.do(["open", ci])
+            for ci in (0, 1):
+                while cl[ci].conn is not None and cl[ci].conn.c2s:
+                    W.do(["c2s", ci])
+            for ci in (0, 1):
+                nmf = len(W.msg_frames(ci))
+                for _ in range(rng.randrange(0, 4) if nmf >= 2 else 0):
+                    W.do(["swapmsg", ci, rng.randrange(nmf), rng.randrange(nmf)])
+                    nreorder += 1
+                if nmf and rng.random() < 0.3:
+                    W.do(["dupmsg", ci, rng.randrange(nmf)])
+            W.settle()
+        # ---- the real-code reading of `Drained`
+        stored = [(r["side"], r["phase"]) for r in W.db.execute("SELECT side, phase FROM messages").fetchall()]
+        for ci in (0, 1):
+            c = cl[ci]
+            b = c.boss
+            peer = cl[1 - ci]
+            if c.conn is None or automat_state(b._M) != "S2B":
+                viol.append(("drained:not-open", f"client {ci}: after reconnecting and flushing the Mailbox is {automat_state(b._M)} "
+                             f"(connection {'up' if c.conn is not None else 'down'}); events {[n for n, v in c.events]}"))
+            if b._M._pending_outbound:
+                viol.append(("drained:pending-outbound", f"client {ci}: both sides connected, everything flushed, and "
+                             f"_pending_outbound still holds {sorted(b._M._pending_outbound)} ({ndrops} drops)"))
+            if b._S._queue:
+                viol.append(("drained:send-queue", f"client {ci}: Send._queue still holds {len(b._S._queue)} messages"))
+            if b._O._queue:
+                viol.append(("drained:order-queue", f"client {ci}: Order._queue still holds {len(b._O._queue)} messages"))
+            if b._rx_phases:
+                viol.append(("drained:parked", f"client {ci}: phases {sorted(b._rx_phases)} are parked in the reorder buffer, "
+                             f"next expected {b._next_rx_phase}"))
+            for side, phase in stored:
+                if side == c.side and _numeric(phase) and phase not in peer.boss._M._processed:
+                    viol.append(("drained:unprocessed", f"the server stores phase {phase} of client {ci} and the peer's Mailbox "
+                                 f"never accepted it (_processed = {sorted(peer.boss._M._processed)})"))
+                    break
+            for i in range(len(sent[ci])):
+                if (c.side, str(i)) not in stored:
+                    viol.append(("drained:not-stored", f"client {ci}: send_message #{i} never reached the server "
+                                 f"(stored: {sorted(p for s_, p in stored if s_ == c.side)})"))
+                    break
+            got = [v for n, v in c.events if n == "message"]
+            want = sent[1 - ci]
+            if got != want:
+                if got == want[:len(got)]:
+                    viol.append(("message-lost", f"client {ci} received {got}, peer sent {want} ({ndrops} drops)"))
+                else:
+                    viol.append(("message-repeated-or-reordered", f"client {ci} received {got}, peer sent {want}"))
+            names = [n for n, v in c.events]
+            for once in ("code", "key", "verifier", "versions"):
+                k = names.count(once)
+                if k != 1:
+                    viol.append((("event-lost:" if k == 0 else "event-repeated:") + once,
+                                 f"client {ci}: {once} notified {k} times after {ndrops} drops: {names}"))
+            for ent in c.internal:
+                viol.append(("internal:" + ent[0], f"internal failure {ent}"))
+        trace = [ndrops, midsend, haskey, min(nreorder, 3)] + [[n for n, v in c.events] for c in cl]
+        tags = ["drained:drops=%d" % min(ndrops, 5), "drained:midsend=%d" % min(midsend, 3), "drained:reorder=%d" % min(nreorder, 3),
+                "drained:haskey" if haskey else "drained:key-exchange-in-continuation",
+                "drained:msgs=%d" % min(len(sent[0]) + len(sent[1]), 8)]
+        return Result([], [], viol, tags, ndrops > 0, info=dict(trace=trace))
+
+
+def gen_drained_comp(case):
+    """op sequence for ONE client's data path (c03's component world) that mirrors the continuation: sends at any time,
+    `lost` / `connected` at any moment, then: connected, the peer's numbered messages in any order with duplicates, the
+    echo of everything pending"""
+    from . import c03
+    rng = random.Random(case["seed"])
+    nsend, npeer, pdrop = case["nsend"], case["npeer"], case["pdrop"]
+    ops = []
+    connected = [False]
+
+    def bounce():
+        if rng.random() < pdrop:
+            ops.append(["mbox", "lost" if connected[0] else "connected"])
+            connected[0] = not connected[0]
+
+    todo = ["boss got_code", "mbox connected", "mbox got_mailbox", "key", "addpake", "addversion", "pake", "version"]
+    sends = ["%02x" % (16 + i) * (1 + i % 5) for i in range(nsend)]
+    peers = [c03.hx(bytes([i, 255 - i]) * (1 + i % 4)) for i in range(npeer)]
+    si = 0
+    while todo or si < len(sends):
+        bounce()
+        if si < len(sends) and (not todo or rng.random() < 0.4):
+            ops.append(["send", sends[si]])
+            si += 1
+            continue
+        s = todo.pop(0)
+        if s == "mbox connected":
+            if connected[0]:
+                continue
+            connected[0] = True
+            ops.append(["mbox", "connected"])
+        elif s == "addpake":
+            ops.append(["add", "pake", "0102"])
+        elif s == "addversion":
+            ops.append(["add", "version", "0304"])
+        elif s in ("pake", "version"):
+            if not connected[0]:
+                ops.append(["mbox", "connected"])
+                connected[0] = True
+            if s == "pake":
+                ops.append(["mailbox_rx", c03.PEER, "pake", ["raw", "70616b652d626f6479"]])
+            else:
+                ops.append(["mailbox_rx", c03.PEER, "version", ["seal", c03.PEER, "version", "7b7d", False]])
+        else:
+            ops.append(s.split(" "))
+    # drops at the end, then the continuation
+    for _ in range(rng.randrange(0, 3)):
+        ops.append(["mbox", "lost" if connected[0] else "connected"])
+        connected[0] = not connected[0]
+    if not connected[0]:
+        ops.append(["mbox", "connected"])          # re-open + drain
+        connected[0] = True
+    order = list(range(npeer))
+    rng.shuffle(order)
+    for i in order:
+        m = ["mailbox_rx", c03.PEER, str(i), ["seal", c03.PEER, str(i), peers[i], False]]
+        ops.append(m)
+        if rng.random() < 0.3:
+            ops.append(m)                           # a duplicate
+    echo = ["pake", "version"] + [str(i) for i in range(nsend)]
+    rng.shuffle(echo)
+    for ph in echo:
+        ops.append(["mailbox_rx", "@me", ph, ["raw", "00"]])
+    return ops, sends, peers
+
+
+def run_drained_comp(case):
+    from . import c03
+    ops, sends, peers = gen_drained_comp(case)
+    r = c03.run_comp(dict(ops=ops, seed=case["seed"]))
+    viol = list(r.violations)
+    last = r.expect[-1] if r.expect else ""
+    dig = dict(kv.split("=", 1) for kv in last.split(" | ")[-1].split(" ") if "=" in kv)
+    got = []
+    adds = []
+    for e in r.expect:
+        for ev in e.split(" | ")[0].split("; "):
+            w = ev.split(" ")
+            if "received" in w:
+                got.append(w[w.index("received") + 1])
+            if "add" in w and len(w) >= w.index("add") + 2:
+                adds.append(w[w.index("add") + 1])
+    if dig.get("pend") != "[]":
+        viol.append(("drained:pending-outbound", f"every phase has been echoed and _pending_outbound is {dig.get('pend')}"))
+    if dig.get("sq") != "0" or dig.get("oq") != "0" or dig.get("buf") != "[]":
+        viol.append(("drained:queues", f"Send/Order queue or reorder buffer not empty at the end: {last.split(' | ')[-1]}"))
+    if dig.get("M") != "S2B":
+        viol.append(("drained:not-open", f"Mailbox is {dig.get('M')} at the end"))
+    want = [p if p else "-" for p in peers]
+    if got != want:
+        viol.append(("message-lost" if got == want[:len(got)] else "message-repeated-or-reordered",
+                     f"the application received {got}, the peer's messages are {want}"))
+    for i in range(len(sends)):
+        if c03.hs(str(i)) not in adds:
+            viol.append(("drained:not-stored", f"send_message #{i} was never written to a connection (adds: {adds})"))
+            break
+    ndrops = sum(1 for o in ops if o[:2] == ["mbox", "lost"])
+    tags = ["drained-comp:drops=%d" % min(ndrops, 4), "drained-comp:sends=%d" % min(len(sends), 6), "drained-comp:peer=%d" % min(len(peers), 6)]
+    return Result(r.lines, r.expect, viol, tags, True, info=dict(model="C03"))
 
 
 def run_pair(case):
@@ -253,6 +549,10 @@ def run_case(case):
         return mc.run_trace_case(case, trace_oracle)
     if case.get("kind") == "pair":
         return run_pair(case)
+    if case.get("kind") == "drained":
+        return run_drained(case)
+    if case.get("kind") == "drained-comp":
+        return run_drained_comp(case)
     if "ops" in case:
         ob, summary = mc.replay(case["ops"], welcome_error=case.get("welcome_error"), npeers=case.get("npeers"), seed=case.get("seed", 0))
         prof = case.get("profile", "replay")
@@ -288,7 +588,12 @@ def shrink(case):
     if case.get("kind") == "trace":
         yield from mc.trace_shrink(case)
         return
-    if case.get("kind") in ("pair", "real"):
+    if case.get("kind") == "drained-comp":
+        for key in ("nsend", "npeer"):
+            if case[key] > 0:
+                yield dict(case, **{key: case[key] - 1})
+        return
+    if case.get("kind") in ("pair", "real", "drained"):
         for k in (0, 1):
             if case["nmsg"][k] > 0:
                 c = dict(case)
